@@ -427,6 +427,22 @@ Definition h_goto (sq : Q -> Q) (x y z : Q) (v : option Q) (s : hst) : hst * opt
     end
   else (s, None).
 
+(* NOT the code: go_to with a minimum-distance threshold instead of `distance > 0` (used for a refutation only) *)
+Definition h_goto_thr (thr : Q) (sq : Q -> Q) (x y z : Q) (v : option Q) (s : hst) : hst * option exn :=
+  if negb (hfly s) then (s, Some NotFlying) else
+  let dx := x - hx s in let dy := y - hy s in let dz := z - hz s in
+  let dist := sq (dx * dx + dy * dy + dz * dz) in
+  if Qltb thr dist then
+    let vel := dflt v (dvel s) in
+    if Qeq_bool vel 0 then (s, Some ZeroDiv) else
+    let dur := dist / vel in
+    let s1 := h_add s (HGoto (hnow s) x y z 0 dur) in
+    match hsleep dur s1 with
+    | (s2, None) => (h_set_pos s2 x y z, None)
+    | r => r
+    end
+  else (s, None).
+
 Definition h_move (sq : Q -> Q) (dx dy dz : Q) (v : option Q) (s : hst) : hst * option exn :=
   h_goto sq (hx s + dx) (hy s + dy) (hz s + dz) v s.
 
